@@ -99,7 +99,7 @@ var c07ToClasses = []string{"user", "user", "fresh", "other-prefix", "bad-checks
 	"module-opchild", "module-feecollector", "module-distribution", "module-minter"}
 
 var c07Payloads = []string{"none", "none", "garbage", "truncated", "badsig", "wrongseq", "wrongchain", "ok-send", "ok-send", "ok-multi", "fail-k", "unroutable",
-	"multi-signer", "self-withdraw", "self-exec", "gas-hog", "empty-tx", "withdraw-then-fail", "send-and-withdraw", "reentrant-finalize", "withdraw-native", "withdraw-and-send"}
+	"multi-signer", "self-withdraw", "self-exec", "gas-hog", "empty-tx", "withdraw-then-fail", "send-and-withdraw", "reentrant-finalize", "withdraw-native", "withdraw-and-send", "bad-signer", "mutated"}
 
 func genC07Case(rt *rapid.T) *c07Case {
 	tc := newTwoChain(tcOpts{nExecutors: 1, fault: true})
@@ -220,6 +220,28 @@ func genC07Case(rt *rapid.T) *c07Case {
 	case "truncated":
 		full := signTx(l2, []sdk.Msg{sendMsg(cs.signer, one)}, []cryptotypes.PrivKey{cs.signer.Priv}, []uint64{num}, []uint64{seq}, henv.L2ChainID)
 		data = full[:rapid.IntRange(1, len(full)-1).Draw(rt, "cut")]
+	case "bad-signer":
+		// a signed transaction whose signer address no longer decodes (bytes of the bech32 string replaced)
+		full := signTx(l2, []sdk.Msg{sendMsg(cs.signer, one)}, []cryptotypes.PrivKey{cs.signer.Priv}, []uint64{num}, []uint64{seq}, henv.L2ChainID)
+		data = append([]byte{}, full...)
+		at := bytes.Index(data, []byte(cs.signer.Str))
+		if at < 0 {
+			rt.Fatalf("setup: signer address not found in the transaction bytes")
+		}
+		n := rapid.IntRange(1, 3).Draw(rt, "nbad")
+		for i := 0; i < n; i++ {
+			off := rapid.IntRange(0, len(cs.signer.Str)-1).Draw(rt, "off")
+			data[at+off] = rapid.SampledFrom([]byte{0xff, 0x7f, 0x00, 'B', 'b', 'i', 'o', '1', ' ', 0xc3}).Draw(rt, "bad")
+		}
+		if bytes.Equal(data, full) {
+			data[at+len(cs.signer.Str)/2] = 0xff
+		}
+	case "mutated":
+		// one byte of a well-signed transaction changed
+		full := signTx(l2, []sdk.Msg{sendMsg(cs.signer, one)}, []cryptotypes.PrivKey{cs.signer.Priv}, []uint64{num}, []uint64{seq}, henv.L2ChainID)
+		data = append([]byte{}, full...)
+		pos := rapid.IntRange(0, len(data)-1).Draw(rt, "pos")
+		data[pos] ^= byte(rapid.IntRange(1, 255).Draw(rt, "xor"))
 	case "badsig":
 		data = signTx(l2, []sdk.Msg{sendMsg(cs.signer, one)}, []cryptotypes.PrivKey{cs.signer.Priv}, []uint64{num + 1}, []uint64{seq}, henv.L2ChainID)
 	case "wrongseq":
